@@ -514,23 +514,61 @@ func (f *Frame) call1(x *ssa.Call, rec *CallRec) AV {
 		return f.builtin(x, b, args)
 	}
 	callee := common.StaticCallee()
+	var bound AV // receiver captured by a method value
 	if callee != nil && len(callee.FreeVars) > 0 {
 		// a function literal called directly: it still sees the variables it captured
 		if fv, ok := f.val(common.Value).(AFunc); ok && fv.fn == callee {
 			f.pendingFree = fv.free
+			bound = fv.recv
 		}
 	}
 	if callee == nil {
 		// dynamic call through a function value
 		switch fv := f.val(common.Value).(type) {
 		case AFunc:
-			callee, args = resolveBound(fv, args)
+			callee, bound = fv.fn, fv.recv
 			f.pendingFree = fv.free
 		case AFuncSet:
 			if rec != nil {
 				rec.dyn = fv
 			}
 			return f.callEach(x, fv, args, key, resT)
+		}
+	}
+	// method values (x.M: a closure over the receiver) and method expressions (T.M: a thunk taking
+	// the receiver first) are the method itself
+	for i := 0; i < 3 && callee != nil; i++ {
+		isBound := strings.HasPrefix(callee.Synthetic, "bound method wrapper")
+		isThunk := strings.HasPrefix(callee.Synthetic, "thunk for")
+		if !(isBound && bound != nil) && !isThunk {
+			break
+		}
+		inner := soleCall(callee)
+		if inner == nil {
+			break
+		}
+		if isBound {
+			args = append([]AV{bound}, args...)
+			bound = nil
+		}
+		if inner.Common().IsInvoke() {
+			if len(args) == 0 {
+				break
+			}
+			if rec != nil {
+				rec.method = inner.Common().Method.Name()
+				rec.recv = args[0]
+				rec.args = args[1:]
+			}
+			return f.invokeNamed(x, inner.Common().Method.Name(), key, args[1:])
+		}
+		sc := inner.Common().StaticCallee()
+		if sc == nil {
+			break
+		}
+		callee = sc
+		if rec != nil {
+			rec.args = args
 		}
 	}
 	if rec != nil {
@@ -690,9 +728,30 @@ func (f *Frame) symbolicRef(key string, t types.Type) AV {
 	return f.an.u.symbolic(key, t)
 }
 
+// soleCall: the one call instruction of a synthetic wrapper.
+func soleCall(fn *ssa.Function) *ssa.Call {
+	var out *ssa.Call
+	for _, b := range fn.Blocks {
+		for _, in := range b.Instrs {
+			if c, ok := in.(*ssa.Call); ok {
+				if _, isB := c.Common().Value.(*ssa.Builtin); isB {
+					continue
+				}
+				if out != nil {
+					return nil
+				}
+				out = c
+			}
+		}
+	}
+	return out
+}
+
 func (f *Frame) invoke(x *ssa.Call, key string, args []AV) AV {
-	common := x.Common()
-	name := common.Method.Name()
+	return f.invokeNamed(x, x.Common().Method.Name(), key, args)
+}
+
+func (f *Frame) invokeNamed(x *ssa.Call, name string, key string, args []AV) AV {
 	res := f.symbolicResult(key, x.Type())
 	f.escapeArgs(args)
 	// io.Reader contract: Read(p []byte) (n int, err error) has 0 <= n <= len(p)
